@@ -3,8 +3,11 @@ package main
 import (
 	"encoding/json"
 	"fmt"
+	"runtime"
+	"sort"
 	"strings"
 	"sync"
+	"sync/atomic"
 	"time"
 
 	"connectrpc.com/conformance/internal/tracer"
@@ -47,43 +50,90 @@ func init() {
 		return c16StressSlotsOut{nn(s), nn(a)}
 	})
 	gen.RegisterOp("c16", "stressBuilder", func(_ *gen.Ctx, raw json.RawMessage) any {
-		in := gen.Into[c16StressBuilderIn](raw)
-		b := tracer.VerifNewBuilder(in.Named, in.Client)
+		return c16StressBuilder(gen.Into[c16StressBuilderIn](raw))
+	})
+}
+
+// c16StressBuilder fires the threads' add/build calls at one real builder from one goroutine
+// per thread, all released at the same instant by a spin barrier, and repeats that on a
+// fresh builder in.Reps times; it returns the distinct outcomes seen. (The outcome of a
+// concurrent run is not a function of the input — every outcome must be the outcome of some
+// linearisation, which is what the driver checks.)
+func c16StressBuilder(in c16StressBuilderIn) c16StressBuilderOut {
+	reps := in.Reps
+	if reps <= 0 {
+		reps = 1
+	}
+	if runtime.GOMAXPROCS(0) < 4 {
+		runtime.GOMAXPROCS(4) // the gap between two critical sections is only hit by truly parallel threads
+	}
+	type act struct {
+		ev    tracer.Event
+		build bool
+	}
+	nt := len(in.Threads)
+	builders := make([]*tracer.VerifBuilder, reps)
+	acts := make([][][]act, reps)
+	for r := range builders {
 		// events are created up front (ids: thread*100 + position), then added concurrently
-		type act struct {
-			ev    tracer.Event
-			build bool
-		}
-		acts := make([][]act, len(in.Threads))
+		b := tracer.VerifNewBuilder(in.Named, in.Client)
+		builders[r] = b
+		acts[r] = make([][]act, nt)
 		for t, th := range in.Threads {
 			for i, op := range th {
 				if op == "build" {
-					acts[t] = append(acts[t], act{build: true})
+					acts[r][t] = append(acts[r][t], act{build: true})
 				} else {
-					acts[t] = append(acts[t], act{ev: b.NewEvent(op, t*100+i)})
+					acts[r][t] = append(acts[r][t], act{ev: b.NewEvent(op, t*100+i)})
 				}
 			}
 		}
-		var wg sync.WaitGroup
-		start := make(chan struct{})
-		for t := range acts {
-			wg.Add(1)
-			go func(as []act) {
-				defer wg.Done()
-				<-start
-				for _, a := range as {
+	}
+	var arrived, gate atomic.Int64
+	var wg sync.WaitGroup
+	for t := 0; t < nt; t++ {
+		wg.Add(1)
+		go func(t int) {
+			defer wg.Done()
+			for r := 0; r < reps; r++ {
+				// spin barrier: the last thread to arrive opens the gate of repetition r
+				if arrived.Add(1) == int64((r+1)*nt) {
+					gate.Store(int64(r + 1))
+				} else {
+					for spins := 0; gate.Load() < int64(r+1); spins++ {
+						if spins > 5000 {
+							runtime.Gosched()
+						}
+					}
+				}
+				b := builders[r]
+				for _, a := range acts[r][t] {
 					if a.build {
 						b.Build()
 					} else {
 						b.Add(a.ev)
 					}
 				}
-			}(acts[t])
-		}
-		close(start)
-		wg.Wait()
-		return c16BuilderOut{b.Completions()}
-	})
+			}
+		}(t)
+	}
+	wg.Wait()
+	seen := map[string][][]string{}
+	for _, b := range builders {
+		comp := b.Completions()
+		key, _ := json.Marshal(comp)
+		seen[string(key)] = comp
+	}
+	keys := make([]string, 0, len(seen))
+	for k := range seen {
+		keys = append(keys, k)
+	}
+	sort.Strings(keys)
+	out := c16StressBuilderOut{Outcomes: make([][][]string, 0, len(keys))}
+	for _, k := range keys {
+		out.Outcomes = append(out.Outcomes, seen[k])
+	}
+	return out
 }
 
 // cancellation racing the body events, through the real middleware (the sessions of c14.go)
@@ -174,6 +224,10 @@ type c16StressBuilderIn struct {
 	Named   bool       `json:"named"`
 	Client  bool       `json:"client"`
 	Threads [][]string `json:"threads"`
+	Reps    int        `json:"reps,omitempty"` // repetitions on fresh builders (default 1)
+}
+type c16StressBuilderOut struct {
+	Outcomes [][][]string `json:"outcomes"` // the distinct outcomes (lists of completions) observed
 }
 
 // c16Annotate turns a raw operation order into a script: unique ids for completions, a join
@@ -239,6 +293,8 @@ var c16SlotSyms = []string{"i:a", "i:b", "x:a", "x:b", "c:a", "c:b", "c:z", "a:1
 func runC16(c *gen.Ctx) error {
 	r := c.R
 	e := c.E
+	// ---- the runner's consumer of the tracer (testResults.fetchTrace)
+	c16ResultsGen(c)
 	// ---- Tracer: every operation order up to maxLen
 	maxLen := 4
 	peekBudget := 120
@@ -367,6 +423,10 @@ func runC16(c *gen.Ctx) error {
 	if c.Thorough() {
 		nsb, nss, nssRacy = 6000, 4000, 120
 	}
+	sbReps, tightReps := 40, 400
+	if c.Thorough() {
+		sbReps, tightReps = 25, 600
+	}
 	for i := 0; i < nsb; i++ {
 		nt := r.Range(2, 4)
 		budget := 8
@@ -385,7 +445,21 @@ func runC16(c *gen.Ctx) error {
 				}
 			}
 		}
-		c.Do("stressBuilder", c16StressBuilderIn{Named: !r.Chance(1, 15), Client: r.Bool(), Threads: threads})
+		c.Do("stressBuilder", c16StressBuilderIn{Named: !r.Chance(1, 15), Client: r.Bool(), Threads: threads, Reps: sbReps})
+	}
+	// tight races: one call per thread, a finishing event against every other kind of call —
+	// an event accepted between "finishing event recorded" and "trace handed over" shows here
+	closers := []string{"reqEndErr", "respErr", "respEnd", "respEndErr", "cancel"}
+	for ci, cl := range closers {
+		for ki, k := range kinds {
+			if !c.Thorough() && (ci+ki)%2 == 1 {
+				continue
+			}
+			c.Do("stressBuilder", c16StressBuilderIn{Named: true, Client: (ci+ki)%4 < 2, Threads: [][]string{{cl}, {k}}, Reps: tightReps})
+			third := kinds[(ci+2*ki+1)%len(kinds)]
+			c.Do("stressBuilder", c16StressBuilderIn{Named: true, Client: (ci+ki)%4 >= 2, Threads: [][]string{{k}, {cl}, {third}}, Reps: tightReps})
+			c.Do("stressBuilder", c16StressBuilderIn{Named: true, Client: ki%2 == 0, Threads: [][]string{{"reqData", cl}, {k, "respData"}, {third}, {closers[(ci+1)%len(closers)]}}, Reps: tightReps / 2})
+		}
 	}
 	stress := func(racy bool) {
 		names := []string{"a", "b"}
